@@ -94,6 +94,7 @@ ParseAll(data, bl) ==
 \* (chosen read by read), receive called until the first terminal outcome and then ONCE MORE (`again`).
 \* The steps are pure operators on a state record (PParse / PRead / PEof): the exhaustive model below and the
 \* hook-level trace specification ReceiveTrace.tla (events recorded inside the real receive loops) use the same ones.
+StreamOf(k) == Streams[k]          \* (the trace specification overrides this with the recorded stream of case k)
 St0(sidv, flv) == [sid |-> sidv, fl |-> flv, pos |-> 0, data |-> <<>>, bl |-> B0, filled |-> 0, blen |-> Cap0, bcap |-> Cap0,
                    out |-> <<>>, again |-> "", phase |-> "parse", nreads |-> 0]
 Extra(s) == s.out # <<>> /\ s.out[Len(s.out)].t # "resp"              \* this is the extra call after a terminal outcome
@@ -117,7 +118,7 @@ PParse(s) ==
 \* one successful read of n bytes (sync: into the window [filled, blen), doubling when the window is now full)
 PRead(s, n) ==
   LET grow == s.fl = "sync" /\ s.blen = s.filled + n IN
-  [s EXCEPT !.data = @ \o SubSeq(Streams[s.sid], s.pos + 1, s.pos + n), !.pos = @ + n, !.filled = @ + n,
+  [s EXCEPT !.data = @ \o SubSeq(StreamOf(s.sid), s.pos + 1, s.pos + n), !.pos = @ + n, !.filled = @ + n,
             !.blen = IF grow THEN 2 * @ ELSE @, !.bcap = IF grow THEN 2 * s.blen ELSE @, !.phase = "parse", !.nreads = @ + 1]
 \* a read that returns 0 bytes
 PEof(s) == [PTerm(s, IF s.bl.st # "init" \/ (IF s.fl = "sync" THEN s.filled # 0 ELSE s.data # <<>>) THEN "ueof" ELSE "clean")
@@ -125,7 +126,7 @@ PEof(s) == [PTerm(s, IF s.bl.st # "init" \/ (IF s.fl = "sync" THEN s.filled # 0 
 
 VARIABLES sid, fl, pos, data, bl, filled, blen, bcap, out, again, phase, nreads
 vars == <<sid, fl, pos, data, bl, filled, blen, bcap, out, again, phase, nreads>>
-Stream == Streams[sid]
+Stream == StreamOf(sid)
 Cur == [sid |-> sid, fl |-> fl, pos |-> pos, data |-> data, bl |-> bl, filled |-> filled, blen |-> blen, bcap |-> bcap,
         out |-> out, again |-> again, phase |-> phase, nreads |-> nreads]
 Become(n) == /\ sid' = n.sid /\ fl' = n.fl /\ pos' = n.pos /\ data' = n.data /\ bl' = n.bl /\ filled' = n.filled /\ blen' = n.blen
